@@ -37,7 +37,8 @@ VARIABLES now,
           forgetAt,  \* future id -> tick at which its cache entry is dropped (-1 = not scheduled)
           queue,     \* sequence of future ids
           asm,       \* [st |-> "idle" | "collecting", items |-> Seq(fut id), deadline |-> tick]
-          ready,     \* assembled batches waiting for a semaphore slot (FIFO of sequences of fut ids)
+          ready,     \* assembled batches that have not entered the function yet: FIFO of [items, st]; st = "new" (its task
+                     \* has not tried the semaphore yet) | "waiting" (blocked in acquire) | "granted" (a release handed it the slot)
           run,       \* batch id -> [items, todo (fut ids not yet handled), st]
           nb, ny, sem,
           mon
@@ -94,16 +95,22 @@ Answer(i) ==     \* the awaited (shielded) future is resolved: the caller return
        IN mon' = Emit([e |-> "CallEnd", i |-> i, kind |-> kind, tag |-> ftag[f], exctype |-> fut[f].st])
     /\ UNCHANGED <<now, cfut, cache, fut, ftag, forgetAt, queue, asm, ready, run, nb, ny, sem>>
 
-CancelCaller(i) ==  \* the harness cancels a waiting caller
+CancelCaller(i) ==  \* the harness cancels a waiting caller: task.cancel() cancels the outer (shield) future at once ...
     /\ Cancels /\ cpc[i] = "wait" /\ fut[cfut[i]].st = "pending"
-    /\ cpc' = [cpc EXCEPT ![i] = "done"]
-    /\ mon' = MStep(Emit([e |-> "Cancel", i |-> i]),
-                    [e |-> "CallEnd", i |-> i, kind |-> "cancel", tag |-> NoTag, exctype |-> "CancelledError", t |-> now, n |-> 0], 0)
+    /\ cpc' = [cpc EXCEPT ![i] = "cancelling"]
+    /\ mon' = Emit([e |-> "Cancel", i |-> i])
     /\ IF ShieldShared THEN UNCHANGED <<fut, forgetAt>>
        ELSE \* before the repair: the shared future itself is cancelled (and its done-callback runs)
             /\ fut' = [fut EXCEPT ![cfut[i]].st = "cancelled"]
             /\ forgetAt' = [forgetAt EXCEPT ![cfut[i]] = now + RT]
     /\ UNCHANGED <<now, cfut, cache, ftag, queue, asm, ready, run, nb, ny, sem>>
+
+CancelDelivered(i) ==  \* ... and the caller's task receives CancelledError when it is scheduled next (whatever happens to
+                       \* the shared future in between)
+    /\ cpc[i] = "cancelling"
+    /\ cpc' = [cpc EXCEPT ![i] = "done"]
+    /\ mon' = Emit([e |-> "CallEnd", i |-> i, kind |-> "cancel", tag |-> NoTag, exctype |-> "CancelledError"])
+    /\ UNCHANGED <<now, cfut, cache, fut, ftag, forgetAt, queue, asm, ready, run, nb, ny, sem>>
 
 Forget(f) ==     \* _forget(): drop the cache entry of a completed request, retention_timeout later
     /\ forgetAt[f] # -1 /\ forgetAt[f] <= now
@@ -116,7 +123,7 @@ AsmTake ==       \* first q.get() / get_nowait() / wait_for(q.get(), batch_timeo
     /\ queue # <<>> /\ Len(asm.items) < MaxB
     /\ LET items == Append(asm.items, Head(queue)) IN
        IF Len(items) = MaxB
-       THEN /\ ready' = Append(ready, items)
+       THEN /\ ready' = Append(ready, [items |-> items, st |-> "new"])
             /\ asm' = [st |-> "idle", items |-> <<>>, deadline |-> 0]
        ELSE /\ asm' = [st |-> "collecting", items |-> items, deadline |-> now + BT]
             /\ UNCHANGED ready
@@ -125,20 +132,37 @@ AsmTake ==       \* first q.get() / get_nowait() / wait_for(q.get(), batch_timeo
 
 AsmTimeout ==    \* AioTimeoutError: no more tasks coming
     /\ asm.st = "collecting" /\ queue = <<>> /\ asm.deadline <= now
-    /\ ready' = Append(ready, asm.items)
+    /\ ready' = Append(ready, [items |-> asm.items, st |-> "new"])
     /\ asm' = [st |-> "idle", items |-> <<>>, deadline |-> 0]
     /\ UNCHANGED <<now, cpc, cfut, cache, fut, ftag, forgetAt, queue, run, nb, ny, sem, mon>>
 
 \* ---------------------------------------------------------------- _process_batch
+\* asyncio.Semaphore (3.11+): acquire() takes a free slot only if nobody is queued, otherwise it queues (FIFO);
+\* release() hands the slot directly to the first queued waiter (the value stays 0) and only otherwise increments it
+CanTake == /\ ready # <<>>
+           /\ (Head(ready).st = "granted" \/ (Head(ready).st = "new" /\ sem > 0))
 BatchStart ==    \* async with self._semaphore: self.func(args) is entered
-    /\ ready # <<>> /\ sem > 0
+    /\ CanTake
     /\ nb' = nb + 1
-    /\ sem' = sem - 1
-    /\ run' = Put(run, nb + 1, [items |-> Head(ready), todo |-> SeqToSet(Head(ready)), st |-> "run"])
+    /\ sem' = IF Head(ready).st = "granted" THEN sem ELSE sem - 1
+    /\ LET its == Head(ready).items IN
+       /\ run' = Put(run, nb + 1, [items |-> its, todo |-> SeqToSet(its), st |-> "run"])
+       /\ mon' = Emit([e |-> "BatchStart", b |-> nb + 1, items |-> [j \in 1..Len(its) |-> fut[its[j]].key], loop |-> "L1"])
     /\ ready' = Tail(ready)
-    /\ mon' = Emit([e |-> "BatchStart", b |-> nb + 1, items |-> [j \in 1..Len(Head(ready)) |-> fut[Head(ready)[j]].key],
-                    loop |-> "L1"])
     /\ UNCHANGED <<now, cpc, cfut, cache, fut, ftag, forgetAt, queue, asm, ny>>
+
+Blockable(j) == /\ j \in 1..Len(ready) /\ ready[j].st = "new"
+                /\ \A i \in 1..(j - 1) : ready[i].st # "new"
+                /\ (j > 1 \/ sem = 0)
+BatchBlock ==    \* a batch task finds no free slot (or others queued before it): it queues in acquire()
+    /\ \E j \in 1..Len(ready) : Blockable(j) /\ ready' = [ready EXCEPT ![j].st = "waiting"]
+    /\ UNCHANGED <<now, cpc, cfut, cache, fut, ftag, forgetAt, queue, asm, run, nb, ny, sem, mon>>
+
+\* the effect of leaving `async with self._semaphore` on <<sem, ready>>
+HasWaiter == \E j \in 1..Len(ready) : ready[j].st = "waiting"
+FirstWaiter == CHOOSE j \in 1..Len(ready) : ready[j].st = "waiting" /\ \A i \in 1..(j - 1) : ready[i].st # "waiting"
+Release == IF HasWaiter THEN /\ ready' = [ready EXCEPT ![FirstWaiter].st = "granted"] /\ UNCHANGED sem
+           ELSE /\ sem' = sem + 1 /\ UNCHANGED ready
 
 SetFut(f, st, tag) ==
     /\ fut' = [fut EXCEPT ![f].st = IF fut[f].st = "pending" THEN st ELSE @]
@@ -177,8 +201,8 @@ BatchRaise(b) == \* the batch function raises (possibly after its last item): ev
     /\ ftag' = [g \in DOMAIN ftag |-> IF g \in run[b].todo /\ fut[g].st = "pending" THEN <<b, "", 0>> ELSE ftag[g]]
     /\ forgetAt' = [g \in DOMAIN forgetAt |-> IF g \in run[b].todo /\ fut[g].st = "pending" THEN now + RT ELSE forgetAt[g]]
     /\ run' = [run EXCEPT ![b].st = "done", ![b].todo = {}]
-    /\ sem' = sem + 1
-    /\ UNCHANGED <<now, cpc, cfut, cache, queue, asm, ready, nb, ny>>
+    /\ Release
+    /\ UNCHANGED <<now, cpc, cfut, cache, queue, asm, nb, ny>>
 
 BatchMisbehave(b) == \* the function yields a key it was not given (or one it answered already): futs.pop(key)
                      \* raises KeyError inside the `async with`; every unanswered future of the batch gets it
@@ -188,8 +212,9 @@ BatchMisbehave(b) == \* the function yields a key it was not given (or one it an
                                     THEN [fut[g] EXCEPT !.st = "missing"] ELSE fut[g]]
     /\ forgetAt' = [g \in DOMAIN forgetAt |-> IF g \in run[b].todo /\ fut[g].st = "pending" THEN now + RT ELSE forgetAt[g]]
     /\ run' = [run EXCEPT ![b].st = "done", ![b].todo = {}]
-    /\ sem' = sem + 1
-    /\ UNCHANGED <<now, cpc, cfut, cache, ftag, queue, asm, ready, nb, ny>>
+    /\ Release
+    /\ ny' = ny + 1           \* (the offending item is a yield like any other)
+    /\ UNCHANGED <<now, cpc, cfut, cache, ftag, queue, asm, nb>>
 
 BatchEnd(b) ==   \* the generator is exhausted: missing keys get ValueError; the slot is released
     /\ b \in DOMAIN run /\ run[b].st = "run"
@@ -199,15 +224,16 @@ BatchEnd(b) ==   \* the generator is exhausted: missing keys get ValueError; the
                                     THEN [fut[g] EXCEPT !.st = "missing"] ELSE fut[g]]
     /\ forgetAt' = [g \in DOMAIN forgetAt |-> IF g \in run[b].todo /\ fut[g].st = "pending" THEN now + RT ELSE forgetAt[g]]
     /\ run' = [run EXCEPT ![b].st = "done", ![b].todo = {}]
-    /\ sem' = sem + 1
-    /\ UNCHANGED <<now, cpc, cfut, cache, ftag, queue, asm, ready, nb, ny>>
+    /\ Release
+    /\ UNCHANGED <<now, cpc, cfut, cache, ftag, queue, asm, nb, ny>>
 
 \* ---------------------------------------------------------------- time
 \* steps the loop performs without waiting (they are taken before the clock may advance)
 Urgent == \/ queue # <<>> /\ Len(asm.items) < MaxB
           \/ asm.st = "collecting" /\ queue = <<>> /\ asm.deadline <= now
-          \/ ready # <<>> /\ sem > 0
+          \/ CanTake \/ \E j \in 1..Len(ready) : Blockable(j)
           \/ \E i \in Calls : cpc[i] = "wait" /\ fut[cfut[i]].st # "pending"
+          \/ \E i \in Calls : cpc[i] = "cancelling"
           \/ \E f \in DOMAIN forgetAt : forgetAt[f] # -1 /\ forgetAt[f] <= now
 Horizon == MaxTime + 3 * (BT + RT + 2)
 Tick == /\ ~Urgent /\ now < Horizon
@@ -222,8 +248,8 @@ DoForget == \E f \in DOMAIN forgetAt : Forget(f)
 DoYield == \E b \in DOMAIN run : \E f \in run[b].todo : BatchYield(b, f)
 DoRaise == \E b \in DOMAIN run : BatchRaise(b) \/ BatchMisbehave(b)
 DoEnd == \E b \in DOMAIN run : BatchEnd(b)
-Next == \/ \E i \in Calls : Arrive(i) \/ Answer(i) \/ CancelCaller(i)
-        \/ DoForget \/ AsmTake \/ AsmTimeout \/ BatchStart \/ DoYield \/ DoRaise \/ DoEnd
+Next == \/ \E i \in Calls : Arrive(i) \/ Answer(i) \/ CancelCaller(i) \/ CancelDelivered(i)
+        \/ DoForget \/ AsmTake \/ AsmTimeout \/ BatchStart \/ BatchBlock \/ DoYield \/ DoRaise \/ DoEnd
         \/ Tick \/ Finish
 Spec == Init /\ [][Next]_vars
 FairSpec == Spec /\ WF_vars(Next)
